@@ -161,6 +161,10 @@ fn execute(scn: &Scn, globals: &[SimGlobals], pristine: &[liquid::Object], expec
             Some(Ok(outs)) => {
                 for (oi, got) in outs.iter().enumerate() {
                     let want = &expected[ti][oi];
+                    if got.is_budget() || want.is_budget() {
+                        rep.bump("discarded_budget", 1);
+                        return Ok(None);
+                    }
                     if let Outcome::Panic(m) = got {
                         return Ok(Some(("T3-panic".into(), format!("thread {ti} op #{oi} {} panicked: {m}", scn.threads[ti][oi].show()))));
                     }
